@@ -1,6 +1,5 @@
 import Dalek.IR.LimbSound
 import Dalek.Proofs.Scalar29
-import Dalek.Proofs.Scalar29.Inline
 /-!
 # C02 — scalar arithmetic is exact arithmetic modulo `l` (serial u32 backend, 29-bit limbs; property theorems)
 
@@ -15,13 +14,9 @@ limbs `< 2^29`; `montgomery_reduce` words `≤ 9·(2^29-1)^2`) and satisfying th
 nevertheless the schoolbook coefficients and lie inside the `montgomery_reduce` contract (this bound is NOT an
 interval fact; it is proved from the value statement).
 
-The composed items `montgomery_mul, mul, square, as_montgomery` are not registered kernels (that the inlined Karatsuba
-output stays inside the `montgomery_reduce` contract is not an interval fact).  Their theorems (section "composed
-items") are nevertheless about the translated composed PROGRAMS `Dalek.Gen.Scalar29.{montgomery_mul, mul, square,
-as_montgomery}`: `Dalek.IR.Inline.pipe_prog` shows that the body of each of them is the inlined sequence of its
-callees (a decidable check on the regenerated programs, `*_is_pipeline`, by `decide +kernel`), so a non-panicking run
-of the callees in sequence is a non-panicking run of the composed program with the same result.
-NOT covered here: `from_bytes_wide` (its limb-extraction prefix is not a separate kernel).
+The composed items `montgomery_mul, mul, square, as_montgomery, from_bytes_wide` are not registered kernels (that the
+inlined Karatsuba output stays inside the `montgomery_reduce` contract is not an interval fact).  Their theorems — about
+the translated composed PROGRAMS, with the same statement shape — are in `Dalek/Props/C02/Scalar29Composed.lean`.
 -/
 set_option exponentiation.threshold 600
 
@@ -251,164 +246,6 @@ theorem from_bytes_spec (hin : EnvIn [x0, x1, x2, x3, x4, x5, x6, x7, x8, x9, x1
   simp only [toZ_cons, toZ_nil] at h2
   rw [h2] at h
   exact_mod_cast h
-
-end
-
-/-! ## composed items -/
-
-open Dalek.IR.Inline
-
-/-- the body of `montgomery_mul` is `mul_internal` followed by `montgomery_reduce`, inlined -/
-theorem montgomery_mul_is_pipeline :
-    pipeChk [(Dalek.Gen.Scalar29.mul_internal, []), (Dalek.Gen.Scalar29.montgomery_reduce, [])]
-      ((List.range Dalek.Gen.Scalar29.montgomery_mul.nIn).map E.v) Dalek.Gen.Scalar29.montgomery_mul.nIn
-      Dalek.Gen.Scalar29.montgomery_mul.body = some (Dalek.Gen.Scalar29.montgomery_mul.outs.map E.v, []) := by
-  decide +kernel
-
-/-- `mul = montgomery_reduce ∘ mul_internal(·, RR) ∘ montgomery_reduce ∘ mul_internal`, inlined (with `RR` folded) -/
-theorem mul_is_pipeline :
-    pipeChk [(Dalek.Gen.Scalar29.mul_internal, []), (Dalek.Gen.Scalar29.montgomery_reduce, []),
-        (Dalek.Gen.Scalar29.mul_internal, U32.RR), (Dalek.Gen.Scalar29.montgomery_reduce, [])]
-      ((List.range Dalek.Gen.Scalar29.mul.nIn).map E.v) Dalek.Gen.Scalar29.mul.nIn
-      Dalek.Gen.Scalar29.mul.body = some (Dalek.Gen.Scalar29.mul.outs.map E.v, []) := by
-  decide +kernel
-
-theorem square_is_pipeline :
-    pipeChk [(Dalek.Gen.Scalar29.square_internal, []), (Dalek.Gen.Scalar29.montgomery_reduce, []),
-        (Dalek.Gen.Scalar29.mul_internal, U32.RR), (Dalek.Gen.Scalar29.montgomery_reduce, [])]
-      ((List.range Dalek.Gen.Scalar29.square.nIn).map E.v) Dalek.Gen.Scalar29.square.nIn
-      Dalek.Gen.Scalar29.square.body = some (Dalek.Gen.Scalar29.square.outs.map E.v, []) := by
-  decide +kernel
-
-theorem as_montgomery_is_pipeline :
-    pipeChk [(Dalek.Gen.Scalar29.mul_internal, U32.RR), (Dalek.Gen.Scalar29.montgomery_reduce, [])]
-      ((List.range Dalek.Gen.Scalar29.as_montgomery.nIn).map E.v) Dalek.Gen.Scalar29.as_montgomery.nIn
-      Dalek.Gen.Scalar29.as_montgomery.body = some (Dalek.Gen.Scalar29.as_montgomery.outs.map E.v, []) := by
-  decide +kernel
-
-theorem RR_envIn : EnvIn U32.RR (rep 9 Scalar29.lim) := by decide +kernel
-
-/-- checked run of `montgomery_reduce ∘ mul_internal` on `a ++ b` (two limb vectors inside the contract with
-`a·b < 2^261·l`) -/
-theorem mr_mi_run (a0 a1 a2 a3 a4 a5 a6 a7 a8 b0 b1 b2 b3 b4 b5 b6 b7 b8 : Nat) (hin : EnvIn ([a0, a1, a2, a3, a4, a5, a6, a7, a8] ++ [b0, b1, b2, b3, b4, b5, b6, b7, b8]) Scalar29.pre_mul_internal)
-    (hab : val29 [a0, a1, a2, a3, a4, a5, a6, a7, a8] * val29 [b0, b1, b2, b3, b4, b5, b6, b7, b8] < 2 ^ 261 * l) :
-    ∃ out, pipeC [(Dalek.Gen.Scalar29.mul_internal, []), (Dalek.Gen.Scalar29.montgomery_reduce, [])] ([a0, a1, a2, a3, a4, a5, a6, a7, a8] ++ [b0, b1, b2, b3, b4, b5, b6, b7, b8]) = some out ∧
-      EnvIn out limbs29 ∧ val29 out < l ∧ val29 out * 2 ^ 261 % l = val29 [a0, a1, a2, a3, a4, a5, a6, a7, a8] * val29 [b0, b1, b2, b3, b4, b5, b6, b7, b8] % l := by
-  obtain ⟨z, hC1, -, hz, hv1⟩ := mul_internal_spec a0 a1 a2 a3 a4 a5 a6 a7 a8 b0 b1 b2 b3 b4 b5 b6 b7 b8 hin
-  obtain ⟨z0, z1, z2, z3, z4, z5, z6, z7, z8, z9, z10, z11, z12, z13, z14, z15, z16, rfl⟩ := list17_of_length (by rw [envIn_length hz]; rfl : z.length = 17)
-  obtain ⟨out, hC2, -, ho, hlt, hv2⟩ := montgomery_reduce_spec z0 z1 z2 z3 z4 z5 z6 z7 z8 z9 z10 z11 z12 z13 z14 z15 z16 hz (by rw [hv1]; exact hab)
-  refine ⟨out, ?_, ho, hlt, by rw [hv2, hv1]⟩
-  simp only [pipeC, List.append_nil, List.cons_append, List.nil_append] at hC1 ⊢
-  rw [hC1]; simp only [Option.bind_some, List.append_nil]; rw [hC2]; rfl
-
-/-- the same with `square_internal` as the first stage -/
-theorem mr_sq_run (a0 a1 a2 a3 a4 a5 a6 a7 a8 : Nat) (hin : EnvIn [a0, a1, a2, a3, a4, a5, a6, a7, a8] Scalar29.pre_square_internal)
-    (haa : val29 [a0, a1, a2, a3, a4, a5, a6, a7, a8] * val29 [a0, a1, a2, a3, a4, a5, a6, a7, a8] < 2 ^ 261 * l) :
-    ∃ out, pipeC [(Dalek.Gen.Scalar29.square_internal, []), (Dalek.Gen.Scalar29.montgomery_reduce, [])] [a0, a1, a2, a3, a4, a5, a6, a7, a8] = some out ∧
-      EnvIn out limbs29 ∧ val29 out < l ∧ val29 out * 2 ^ 261 % l = val29 [a0, a1, a2, a3, a4, a5, a6, a7, a8] * val29 [a0, a1, a2, a3, a4, a5, a6, a7, a8] % l := by
-  obtain ⟨z, hC1, -, hz, hv1⟩ := square_internal_spec a0 a1 a2 a3 a4 a5 a6 a7 a8 hin
-  obtain ⟨z0, z1, z2, z3, z4, z5, z6, z7, z8, z9, z10, z11, z12, z13, z14, z15, z16, rfl⟩ := list17_of_length (by rw [envIn_length hz]; rfl : z.length = 17)
-  obtain ⟨out, hC2, -, ho, hlt, hv2⟩ := montgomery_reduce_spec z0 z1 z2 z3 z4 z5 z6 z7 z8 z9 z10 z11 z12 z13 z14 z15 z16 hz (by rw [hv1]; exact haa)
-  refine ⟨out, ?_, ho, hlt, by rw [hv2, hv1]⟩
-  simp only [pipeC, List.append_nil] at hC1 ⊢
-  rw [hC1]; simp only [Option.bind_some, List.append_nil]; rw [hC2]; rfl
-
-/-- second half of `mul`/`square`: `montgomery_reduce(mul_internal(c, RR))` for canonical `c` -/
-theorem mr_miRR_run (c0 c1 c2 c3 c4 c5 c6 c7 c8 : Nat) (hc : EnvIn [c0, c1, c2, c3, c4, c5, c6, c7, c8] limbs29) :
-    ∃ out, pipeC [(Dalek.Gen.Scalar29.mul_internal, U32.RR), (Dalek.Gen.Scalar29.montgomery_reduce, [])] [c0, c1, c2, c3, c4, c5, c6, c7, c8] = some out ∧
-      EnvIn out limbs29 ∧ val29 out < l ∧ val29 out * 2 ^ 261 % l = val29 [c0, c1, c2, c3, c4, c5, c6, c7, c8] * val29 U32.RR % l := by
-  have hin2 : EnvIn ([c0, c1, c2, c3, c4, c5, c6, c7, c8] ++ U32.RR) Scalar29.pre_mul_internal := envIn_append hc RR_envIn
-  have hC9 : val29 [c0, c1, c2, c3, c4, c5, c6, c7, c8] < 2 ^ 261 := by
-    have h1 := lim29_of_envIn hc
-    simp only [toZ_cons, toZ_nil] at h1
-    have h2 := (repZ9_bd _ _ _ _ _ _ _ _ _ h1).2
-    rw [repZ_cast9] at h2
-    exact_mod_cast h2
-  obtain ⟨out, hp, ho, hlt, hv⟩ := mr_mi_run c0 c1 c2 c3 c4 c5 c6 c7 c8 190815506 504634135 361594685 339687255 426956673 70249340 485410621 504909086 328813 hin2
-    (by show val29 [c0, c1, c2, c3, c4, c5, c6, c7, c8] * val29 U32.RR < 2 ^ 261 * l
-        rw [val29_RR]
-        exact Nat.mul_lt_mul'' hC9 (Nat.mod_lt _ (by norm_num [l])))
-  refine ⟨out, ?_, ho, hlt, hv⟩
-  simp only [pipeC] at hp ⊢
-  exact hp
-
-section
-variable (a0 a1 a2 a3 a4 a5 a6 a7 a8 b0 b1 b2 b3 b4 b5 b6 b7 b8 : Nat)
-
-/-- `Scalar29::montgomery_mul(a, b)` for `a·b < 2^261·l`: canonical `out` with `out·2^261 ≡ a·b (mod l)` -/
-theorem montgomery_mul_spec (hin : EnvIn [a0, a1, a2, a3, a4, a5, a6, a7, a8, b0, b1, b2, b3, b4, b5, b6, b7, b8] Scalar29.pre_mul_internal)
-    (hab : val29 [a0, a1, a2, a3, a4, a5, a6, a7, a8] * val29 [b0, b1, b2, b3, b4, b5, b6, b7, b8] < 2 ^ 261 * l) :
-    ∃ out, Dalek.Gen.Scalar29.montgomery_mul.evalC [a0, a1, a2, a3, a4, a5, a6, a7, a8, b0, b1, b2, b3, b4, b5, b6, b7, b8] = some out ∧
-      Dalek.Gen.Scalar29.montgomery_mul.evalW [a0, a1, a2, a3, a4, a5, a6, a7, a8, b0, b1, b2, b3, b4, b5, b6, b7, b8] = out ∧
-      EnvIn out limbs29 ∧ val29 out < l ∧
-      val29 out * 2 ^ 261 % l = val29 [a0, a1, a2, a3, a4, a5, a6, a7, a8] * val29 [b0, b1, b2, b3, b4, b5, b6, b7, b8] % l := by
-  obtain ⟨out, hp, ho, hlt, hv⟩ := mr_mi_run a0 a1 a2 a3 a4 a5 a6 a7 a8 b0 b1 b2 b3 b4 b5 b6 b7 b8 hin hab
-  obtain ⟨hC, hW⟩ := pipe_prog _ _ montgomery_mul_is_pipeline [a0, a1, a2, a3, a4, a5, a6, a7, a8, b0, b1, b2, b3, b4, b5, b6, b7, b8] out rfl hp
-  exact ⟨out, hC, hW, ho, hlt, hv⟩
-
-/-- `Scalar29::mul(a, b)` for `a·b < 2^261·l`: the canonical representative of the product -/
-theorem mul_spec_of_lt (hin : EnvIn [a0, a1, a2, a3, a4, a5, a6, a7, a8, b0, b1, b2, b3, b4, b5, b6, b7, b8] Scalar29.pre_mul_internal)
-    (hab : val29 [a0, a1, a2, a3, a4, a5, a6, a7, a8] * val29 [b0, b1, b2, b3, b4, b5, b6, b7, b8] < 2 ^ 261 * l) :
-    ∃ out, Dalek.Gen.Scalar29.mul.evalC [a0, a1, a2, a3, a4, a5, a6, a7, a8, b0, b1, b2, b3, b4, b5, b6, b7, b8] = some out ∧
-      Dalek.Gen.Scalar29.mul.evalW [a0, a1, a2, a3, a4, a5, a6, a7, a8, b0, b1, b2, b3, b4, b5, b6, b7, b8] = out ∧
-      EnvIn out limbs29 ∧ val29 out = val29 [a0, a1, a2, a3, a4, a5, a6, a7, a8] * val29 [b0, b1, b2, b3, b4, b5, b6, b7, b8] % l := by
-  obtain ⟨c, hp1, hc, hclt, hcv⟩ := mr_mi_run a0 a1 a2 a3 a4 a5 a6 a7 a8 b0 b1 b2 b3 b4 b5 b6 b7 b8 hin hab
-  obtain ⟨c0, c1, c2, c3, c4, c5, c6, c7, c8, rfl⟩ := list9_of_length (by rw [envIn_length hc]; rfl : c.length = 9)
-  obtain ⟨out, hp2, ho, hlt, hv⟩ := mr_miRR_run c0 c1 c2 c3 c4 c5 c6 c7 c8 hc
-  have hp : pipeC [(Dalek.Gen.Scalar29.mul_internal, []), (Dalek.Gen.Scalar29.montgomery_reduce, []),
-      (Dalek.Gen.Scalar29.mul_internal, U32.RR), (Dalek.Gen.Scalar29.montgomery_reduce, [])] [a0, a1, a2, a3, a4, a5, a6, a7, a8, b0, b1, b2, b3, b4, b5, b6, b7, b8] = some out := by
-    simp only [pipeC, Option.bind_eq_some_iff] at hp1 hp2 ⊢
-    obtain ⟨z1, h1, c', h2, h3⟩ := hp1
-    simp only [Option.some.injEq] at h3; subst h3
-    obtain ⟨z2, h4, o', h5, h6⟩ := hp2
-    simp only [Option.some.injEq] at h6; subst h6
-    exact ⟨z1, h1, _, h2, z2, h4, _, h5, rfl⟩
-  obtain ⟨hC, hW⟩ := pipe_prog _ _ mul_is_pipeline [a0, a1, a2, a3, a4, a5, a6, a7, a8, b0, b1, b2, b3, b4, b5, b6, b7, b8] out rfl hp
-  exact ⟨out, hC, hW, ho, mont_twice hcv hv val29_RR hlt⟩
-
-/-- `Scalar29::mul(a, b)` on canonical inputs: `a·b mod l`, canonical -/
-theorem mul_spec (hin : EnvIn [a0, a1, a2, a3, a4, a5, a6, a7, a8, b0, b1, b2, b3, b4, b5, b6, b7, b8] Scalar29.pre_mul_internal)
-    (ha : val29 [a0, a1, a2, a3, a4, a5, a6, a7, a8] < l) (hb : val29 [b0, b1, b2, b3, b4, b5, b6, b7, b8] < l) :
-    ∃ out, Dalek.Gen.Scalar29.mul.evalC [a0, a1, a2, a3, a4, a5, a6, a7, a8, b0, b1, b2, b3, b4, b5, b6, b7, b8] = some out ∧
-      Dalek.Gen.Scalar29.mul.evalW [a0, a1, a2, a3, a4, a5, a6, a7, a8, b0, b1, b2, b3, b4, b5, b6, b7, b8] = out ∧
-      EnvIn out limbs29 ∧ val29 out = val29 [a0, a1, a2, a3, a4, a5, a6, a7, a8] * val29 [b0, b1, b2, b3, b4, b5, b6, b7, b8] % l :=
-  mul_spec_of_lt a0 a1 a2 a3 a4 a5 a6 a7 a8 b0 b1 b2 b3 b4 b5 b6 b7 b8 hin (Nat.mul_lt_mul'' (lt_trans ha (by norm_num [l])) hb)
-
-/-- `Scalar29::square(a)` for `a² < 2^261·l`: the canonical representative of the square -/
-theorem square_spec_of_lt (hin : EnvIn [a0, a1, a2, a3, a4, a5, a6, a7, a8] Scalar29.pre_square_internal)
-    (haa : val29 [a0, a1, a2, a3, a4, a5, a6, a7, a8] * val29 [a0, a1, a2, a3, a4, a5, a6, a7, a8] < 2 ^ 261 * l) :
-    ∃ out, Dalek.Gen.Scalar29.square.evalC [a0, a1, a2, a3, a4, a5, a6, a7, a8] = some out ∧
-      Dalek.Gen.Scalar29.square.evalW [a0, a1, a2, a3, a4, a5, a6, a7, a8] = out ∧
-      EnvIn out limbs29 ∧ val29 out = val29 [a0, a1, a2, a3, a4, a5, a6, a7, a8] * val29 [a0, a1, a2, a3, a4, a5, a6, a7, a8] % l := by
-  obtain ⟨c, hp1, hc, hclt, hcv⟩ := mr_sq_run a0 a1 a2 a3 a4 a5 a6 a7 a8 hin haa
-  obtain ⟨c0, c1, c2, c3, c4, c5, c6, c7, c8, rfl⟩ := list9_of_length (by rw [envIn_length hc]; rfl : c.length = 9)
-  obtain ⟨out, hp2, ho, hlt, hv⟩ := mr_miRR_run c0 c1 c2 c3 c4 c5 c6 c7 c8 hc
-  have hp : pipeC [(Dalek.Gen.Scalar29.square_internal, []), (Dalek.Gen.Scalar29.montgomery_reduce, []),
-      (Dalek.Gen.Scalar29.mul_internal, U32.RR), (Dalek.Gen.Scalar29.montgomery_reduce, [])] [a0, a1, a2, a3, a4, a5, a6, a7, a8] = some out := by
-    simp only [pipeC, Option.bind_eq_some_iff] at hp1 hp2 ⊢
-    obtain ⟨z1, h1, c', h2, h3⟩ := hp1
-    simp only [Option.some.injEq] at h3; subst h3
-    obtain ⟨z2, h4, o', h5, h6⟩ := hp2
-    simp only [Option.some.injEq] at h6; subst h6
-    exact ⟨z1, h1, _, h2, z2, h4, _, h5, rfl⟩
-  obtain ⟨hC, hW⟩ := pipe_prog _ _ square_is_pipeline [a0, a1, a2, a3, a4, a5, a6, a7, a8] out rfl hp
-  exact ⟨out, hC, hW, ho, mont_twice hcv hv val29_RR hlt⟩
-
-/-- `Scalar29::square(a)` on a canonical input: `a² mod l`, canonical -/
-theorem square_spec (hin : EnvIn [a0, a1, a2, a3, a4, a5, a6, a7, a8] Scalar29.pre_square_internal) (ha : val29 [a0, a1, a2, a3, a4, a5, a6, a7, a8] < l) :
-    ∃ out, Dalek.Gen.Scalar29.square.evalC [a0, a1, a2, a3, a4, a5, a6, a7, a8] = some out ∧
-      Dalek.Gen.Scalar29.square.evalW [a0, a1, a2, a3, a4, a5, a6, a7, a8] = out ∧
-      EnvIn out limbs29 ∧ val29 out = val29 [a0, a1, a2, a3, a4, a5, a6, a7, a8] * val29 [a0, a1, a2, a3, a4, a5, a6, a7, a8] % l :=
-  square_spec_of_lt a0 a1 a2 a3 a4 a5 a6 a7 a8 hin (Nat.mul_lt_mul'' (lt_trans ha (by norm_num [l])) ha)
-
-/-- `Scalar29::as_montgomery(a)` for ANY nine 29-bit limbs: the canonical representative of `a·2^261` -/
-theorem as_montgomery_spec (hin : EnvIn [a0, a1, a2, a3, a4, a5, a6, a7, a8] limbs29) :
-    ∃ out, Dalek.Gen.Scalar29.as_montgomery.evalC [a0, a1, a2, a3, a4, a5, a6, a7, a8] = some out ∧
-      Dalek.Gen.Scalar29.as_montgomery.evalW [a0, a1, a2, a3, a4, a5, a6, a7, a8] = out ∧
-      EnvIn out limbs29 ∧ val29 out = val29 [a0, a1, a2, a3, a4, a5, a6, a7, a8] * 2 ^ 261 % l := by
-  obtain ⟨out, hp, ho, hlt, hv⟩ := mr_miRR_run a0 a1 a2 a3 a4 a5 a6 a7 a8 hin
-  obtain ⟨hC, hW⟩ := pipe_prog _ _ as_montgomery_is_pipeline [a0, a1, a2, a3, a4, a5, a6, a7, a8] out rfl hp
-  exact ⟨out, hC, hW, ho, mont_as hv val29_RR hlt⟩
 
 end
 
